@@ -206,7 +206,7 @@ theorem mkMesh_inv (r : Region) (n : List Nat) (bc : String) (subs : List (Strin
     m'.region = r ∧ m'.n = n ∧ m'.bc = bc.toLower ∧
     m'.subs = subs.map (fun p => (p.1, { pmin := p.2.pmin, pmax := p.2.pmax, dims := r.dims, units := r.units, tol := r.tol })) ∧
     n.length = r.ndim ∧ (∀ k ∈ n, 0 < k) ∧ Mesh.bcOk r.dims bc.toLower = true ∧
-    ∀ p ∈ subs, subOk { region := r, n := n, bc := bc.toLower, subs := [] } p.2 = true := by
+    ∀ p ∈ subs, candOk { region := r, n := n, bc := bc.toLower, subs := [] } p.2 = true := by
   unfold mkMesh? at h
   split at h
   · cases h
